@@ -146,7 +146,14 @@ static size_t der_mutate(Rng *r, const uint8_t *cert, size_t certlen, uint8_t *o
 		int id = (int)rng_below(r, (uint32_t)g_ndn);
 		DNode *d = &g_dn[id];
 		int kind = (int)rng_below(r, 12);
-		if (g_ndn <= 8 && rng_chance(r, 1, 3)) kind = 7;      /* small trees (ciphertext, signature): content sizes matter most */
+		if (g_ndn <= 8 && rng_chance(r, 1, 3)) {      /* small trees (ciphertext, signature): content sizes matter most, */
+			kind = 7;
+			if (rng_chance(r, 1, 2)) {                 /* above all that of the string that carries the payload */
+				for (int k = 0; k < g_ndn; k++)
+					if (!g_dn[k].constructed && (g_dn[id].constructed || g_dn[k].rawlen > g_dn[id].rawlen)) id = k;
+				d = &g_dn[id];
+			}
+		}
 		switch (kind) {
 		case 0: case 1: case 2: d->lenmode = 1 + (int)rng_below(r, 8); snprintf(what, wl, "der_len%d@node%d(tag%02x)", d->lenmode, id, d->tag); break;
 		case 3: d->dup = rng_chance(r, 1, 2) ? 1 : 2 + (int)rng_below(r, 30);        /* once, or a whole run of copies (SEQUENCE OF beyond its receiver's array) */
